@@ -336,19 +336,48 @@ static void apply_env(const decl_t& d, const std::string& envword, std::vector<s
     }
 }
 
-static std::string one_parse(nitro::options::parser& q, const decl_t& d, const std::vector<std::string>& args)
+// both overloads of parse must agree: (argc, argv) against a vector of unchecked user_input, and — when every token can be
+// constructed with the VALIDATING constructor — against a vector of validated user_input as well
+template <typename One>
+static std::string parse_all_overloads(nitro::options::parser& q, const std::vector<std::string>& args, One observe)
 {
     std::vector<const char*> argv;
     argv.push_back("prog");
     for (auto& s : args) argv.push_back(s.c_str());
-    try
+    std::string r1 = observe([&] { return q.parse(static_cast<int>(argv.size()), argv.data()); });
+    std::string r2 = observe([&] {
+        std::vector<nitro::options::user_input> v;
+        for (auto& s : args) v.emplace_back(s, nitro::options::user_input::unchecked_t());
+        return q.parse(v);
+    });
+    if (r1 != r2) return "OVERLOADS-DIFFER argv=" + r1 + " vector=" + r2;
+    std::vector<nitro::options::user_input> checked;
+    bool all = true;
+    for (auto& s : args)
     {
-        auto a = q.parse(static_cast<int>(argv.size()), argv.data());
-        return obs_ok(a, d.os, d.ms, d.ts, q, false);
+        try { checked.emplace_back(s); }
+        catch (const nitro::options::parsing_error&) { all = false; break; }
     }
-    catch (const nitro::options::parsing_error&) { return "USER"; }
-    catch (const nitro::options::parser_error&) { return "DEV"; }
-    catch (const std::exception& e) { return std::string("OTHER(") + typeid(e).name() + ")"; }
+    if (all)
+    {
+        std::string r3 = observe([&] { return q.parse(checked); });
+        if (r1 != r3) return "OVERLOADS-DIFFER argv=" + r1 + " validated-vector=" + r3;
+    }
+    return r1;
+}
+
+static std::string one_parse(nitro::options::parser& q, const decl_t& d, const std::vector<std::string>& args)
+{
+    return parse_all_overloads(q, args, [&](auto call) -> std::string {
+        try
+        {
+            auto a = call();
+            return obs_ok(a, d.os, d.ms, d.ts, q, false);
+        }
+        catch (const nitro::options::parsing_error&) { return "USER"; }
+        catch (const nitro::options::parser_error&) { return "DEV"; }
+        catch (const std::exception& e) { return std::string("OTHER(") + typeid(e).name() + ")"; }
+    });
 }
 
 // steps <decl> <env> step...   step = a:<argv> (parse on the long-lived object, then on a fresh identical parser)
@@ -438,6 +467,13 @@ static std::string run_steps(const std::vector<std::string>& w)
 static std::string run_case(const std::vector<std::string>& w)
 {
     if (w.size() >= 4 && w[0] == "steps") return run_steps(w);
+    if (w.size() == 2 && w[0] == "ctor")
+    {
+        // the validating constructor of user_input: raises the user-input error exactly for ill-formed tokens
+        try { nitro::options::user_input u(unhex(w[1])); (void)u; return "CTOR-OK"; }
+        catch (const nitro::options::parsing_error&) { return "USER"; }
+        catch (const std::exception& e) { return std::string("OTHER(") + typeid(e).name() + ")"; }
+    }
     if (w.size() < 4 || (w[0] != "parse" && w[0] != "parsel" && w[0] != "hist")) return "BADCASE";
     bool hist = w[0] == "hist";
     bool typed = w[0] == "parsel";
@@ -521,15 +557,17 @@ static std::string run_case(const std::vector<std::string>& w)
         else p.accept_positionals(static_cast<std::size_t>(std::atol(df[0].c_str())));
         if (df[1] == "1") p.greedy_postionals();
         };
-        auto one = [&](nitro::options::parser& q, const std::vector<const char*>& argv) -> std::string {
-            try
-            {
-                auto a = q.parse(static_cast<int>(argv.size()), argv.data());
-                return obs_ok(a, os, ms, ts, q, typed);
-            }
-            catch (const nitro::options::parsing_error&) { return "USER"; }
-            catch (const nitro::options::parser_error&) { return "DEV"; }
-            catch (const std::exception& e) { return std::string("OTHER(") + typeid(e).name() + ")"; }
+        auto one = [&](nitro::options::parser& q, const std::vector<std::string>& args) -> std::string {
+            return parse_all_overloads(q, args, [&](auto call) -> std::string {
+                try
+                {
+                    auto a = call();
+                    return obs_ok(a, os, ms, ts, q, typed);
+                }
+                catch (const nitro::options::parsing_error&) { return "USER"; }
+                catch (const nitro::options::parser_error&) { return "DEV"; }
+                catch (const std::exception& e) { return std::string("OTHER(") + typeid(e).name() + ")"; }
+            });
         };
         nitro::options::parser p("app", "about");
         declare(p);
@@ -537,17 +575,14 @@ static std::string run_case(const std::vector<std::string>& w)
         for (std::size_t k = 3; k < w.size(); k++)
         {
             auto args = unwire_strs(w[k]);
-            std::vector<const char*> argv;
-            argv.push_back("prog");
-            for (auto& s : args) argv.push_back(s.c_str());
             if (k > 3) out += " | ";
-            out += one(p, argv);
+            out += one(p, args);
             if (hist)
             {
                 // the same vector on a freshly built identical parser
                 nitro::options::parser fresh("app", "about");
                 declare(fresh);
-                out += " # " + one(fresh, argv);
+                out += " # " + one(fresh, args);
             }
         }
     }
